@@ -21,6 +21,9 @@ CHECKS = {
  "C10": ("model_checking", "For every tree of a bounded-exhaustive document family and EVERY edit (all start/length pairs x 5 inserted texts) and BFS over edit sequences without re-parsing, the tree before and after Tree::edit are compared in lock step against a reference text model; Node::edit, edit_point, edit_range and the stored included ranges are checked under the same mapping; the look-ahead rule uses hook H2.",
          "Zero-width nodes on an edit boundary: containment only. Positions exactly at a pure insertion point may map to either side.",
          "bounded-exhaustive (tree, edit) enumeration + explicit-state BFS over edit sequences, text-model oracle", "DESIGN.md §2 C10"),
+ "C09": ("model_checking", "Exhaustive enumeration of environment answers on the real runtime: all 2^(n-1) chunkings of small documents, all single/pair split points of medium ones, UTF-16LE/BE vs UTF-8 with unit chunkings, BFS over prior parser histories to depth 3, cancellation at every progress-callback index and every pair followed by resume or reset (fresh and incremental parses); every run compared with a fresh whole-buffer parse.",
+         "Cancellation points exist every 100 parser operations. Two known findings (recovery shape depends on encoding for erroneous text; partition-style chunkers that cut characters).",
+         "deviation-bounded exhaustive enumeration of environment answers (chunk boundaries, encodings, histories, cancellation indices)", "DESIGN.md §2 C09"),
 }
 REASON_WIP = "check not built yet (work in progress; see DESIGN.md build order)"
 def main():
